@@ -194,22 +194,27 @@ impl Shared {
         let id = std::thread::current().id();
         self.watch.lock().unwrap().remove(&id);
     }
-    pub fn stalled(&self, limit: Duration) -> Option<Value> {
+    /// cases that have been running longer than `limit`: (identity of the run, elapsed, case)
+    pub fn stalled(&self, limit: Duration) -> Vec<(String, Duration, Value)> {
+        let mut out = vec![];
         {
             let w = self.watch.lock().unwrap();
-            for (_, (t, v)) in w.iter() {
+            for (id, (t, v)) in w.iter() {
                 if t.elapsed() > limit {
-                    return Some(v.clone());
+                    out.push((format!("{id:?}@{t:?}"), t.elapsed(), v.clone()));
                 }
             }
         }
         let l = self.lazy.lock().unwrap();
-        for (_, (t, f)) in l.iter() {
+        for (id, (t, f)) in l.iter() {
             if t.elapsed() > limit {
-                return Some(f());
+                let key = format!("{id:?}@{t:?}");
+                if !out.iter().any(|(k, _, _)| k.split('@').next() == key.split('@').next()) {
+                    out.push((key, t.elapsed(), f()));
+                }
             }
         }
-        None
+        out
     }
     /// generic stall detection for every stream: remember (lazily serialisable) what runs
     fn watch_lazy(&self, f: std::sync::Arc<dyn Fn() -> Value + Send + Sync>) {
@@ -530,10 +535,18 @@ pub fn run_property(prop: &Prop, tier: Tier, seed: u64, root: PathBuf, only_stre
         let sh_ref = &sh;
         let done_ref = &done;
         let wd = scope.spawn(move || -> Option<i32> {
+            let mut handled: HashSet<String> = HashSet::new();
             while !done_ref.load(Ordering::Relaxed) {
                 std::thread::sleep(Duration::from_millis(50));
-                if let Some(v) = sh_ref.stalled(Duration::from_secs(20)) {
-                    return Some(handle_stall(sh_ref, &v));
+                for (key, elapsed, v) in sh_ref.stalled(Duration::from_secs(20)) {
+                    if elapsed > Duration::from_secs(900) {
+                        println!("INCONCLUSIVE property={} a case has been running for 15 minutes", sh_ref.id);
+                        std::process::exit(2);
+                    }
+                    if handled.insert(key) {
+                        // exits the process for a confirmed violation; returns when the stall is benign
+                        handle_stall(sh_ref, &v);
+                    }
                 }
             }
             None
@@ -650,53 +663,69 @@ pub fn run_property(prop: &Prop, tier: Tier, seed: u64, root: PathBuf, only_stre
     }
 }
 
-fn handle_stall(sh: &Shared, v: &Value) -> i32 {
-    if !sh.stall_is_violation() {
-        let f = Failure::new("stall", "case did not return within 20 s");
-        let path = sh.write_replay(v["stream"].as_str().unwrap_or("unknown"), &v["case"], &f);
-        println!("INCONCLUSIVE property={} a case did not return within 20 s (bounded time is C04/C05's clause, not this property's): {path}", sh.id);
-        std::process::exit(2);
-    }
-    // confirm in a fresh child process with a 60 s limit
-    let f = Failure::new("stall", "case did not return within 20 s; re-running in isolation");
+fn child_cpu_seconds(pid: u32) -> Option<f64> {
+    let stat = std::fs::read_to_string(format!("/proc/{pid}/stat")).ok()?;
+    let rest = stat.rsplit_once(')')?.1;
+    let f: Vec<&str> = rest.split_whitespace().collect();
+    // after the command name: state is field 0, utime field 11, stime field 12
+    let ut: f64 = f.get(11)?.parse().ok()?;
+    let st: f64 = f.get(12)?.parse().ok()?;
+    let hz = unsafe { libc::sysconf(libc::_SC_CLK_TCK) } as f64;
+    Some((ut + st) / hz.max(1.0))
+}
+
+/// A case has been running for more than 20 s of wall time. For the totality properties it is
+/// re-run in a fresh child process and judged by the CPU time it consumes THERE (independent of
+/// machine load; in-bounds inputs need milliseconds): > 10 s CPU ⇒ violation of the bounded-time
+/// clause. Otherwise the stall is benign (busy machine) and the run continues.
+fn handle_stall(sh: &Shared, v: &Value) {
+    let f = Failure::new("stall", "case was still running after 20 s of wall time");
     let path = sh.write_replay(v["stream"].as_str().unwrap_or("unknown"), &v["case"], &f);
+    if !sh.stall_is_violation() {
+        println!("NOTE property={} a case has been running for 20 s (bounded time is C04/C05's clause, not this property's); waiting: {path}", sh.id);
+        return;
+    }
     let exe = std::env::current_exe().unwrap();
     let mut child = match std::process::Command::new(exe).arg(sh.id).arg("--replay").arg(&path).stdout(std::process::Stdio::null()).spawn() {
         Ok(c) => c,
         Err(_) => {
-            println!("INCONCLUSIVE stall could not be confirmed (spawn failed) case={path}");
-            std::process::exit(2);
+            println!("NOTE stall could not be examined in isolation (spawn failed) case={path}");
+            return;
         }
     };
     let t0 = Instant::now();
+    let mut last_cpu = 0.0f64;
     loop {
         match child.try_wait() {
             Ok(Some(_)) => {
-                // the case returned in isolation: judge it by the CPU time it needed there
-                // (robust against machine load; in-bounds inputs need milliseconds)
-                let cpu = unsafe {
-                    let mut ru: libc::rusage = std::mem::zeroed();
-                    libc::getrusage(libc::RUSAGE_CHILDREN, &mut ru);
-                    ru.ru_utime.tv_sec as f64 + ru.ru_stime.tv_sec as f64 + (ru.ru_utime.tv_usec + ru.ru_stime.tv_usec) as f64 / 1e6
-                };
-                if cpu > 10.0 {
+                if last_cpu > 10.0 {
                     println!("VIOLATION property={} replay={}", sh.id, path);
-                    println!("  signature=slow: the case needs {cpu:.1} s of CPU time in an isolated process (inputs within the property's bounds normally need milliseconds); bounded-time clause");
+                    println!("  signature=slow: the case needs {last_cpu:.1} s of CPU time in an isolated process (inputs within the property's bounds normally need milliseconds); bounded-time clause");
                     std::process::exit(1);
                 }
-                println!("INCONCLUSIVE a case stalled >20 s in the run but returned in isolation after {cpu:.1} s CPU: {path}");
-                std::process::exit(2);
+                println!("NOTE a case was still running after 20 s of wall time but needs only {last_cpu:.1} s CPU in isolation (busy machine): {path}");
+                let _ = std::fs::remove_file(&path);
+                return;
             }
             Ok(None) => {
-                if t0.elapsed() > Duration::from_secs(60) {
+                if let Some(c) = child_cpu_seconds(child.id()) {
+                    last_cpu = c;
+                }
+                if last_cpu > 30.0 {
                     let _ = child.kill();
+                    let _ = child.wait();
                     println!("VIOLATION property={} replay={}", sh.id, path);
-                    println!("  signature=hang: the call did not return within 60 s in an isolated process");
+                    println!("  signature=hang: the call consumed {last_cpu:.0} s of CPU time in an isolated process without returning; bounded-time clause");
                     std::process::exit(1);
                 }
-                std::thread::sleep(Duration::from_millis(200));
+                if t0.elapsed() > Duration::from_secs(900) {
+                    let _ = child.kill();
+                    println!("INCONCLUSIVE property={} isolated re-run got only {last_cpu:.1} s CPU in 15 minutes: {path}", sh.id);
+                    std::process::exit(2);
+                }
+                std::thread::sleep(Duration::from_millis(100));
             }
-            Err(_) => std::process::exit(2),
+            Err(_) => return,
         }
     }
 }
